@@ -100,6 +100,11 @@ func (q *MultiOpQueryer) fetch(inputs []*requests.Request) ([]requests.Response,
 		return nil, err
 	}
 
+	// every request must be answered by exactly one entry
+	if len(results) != len(inputs) {
+		return nil, errors.New("response list has " + strconv.Itoa(len(results)) + " entries for " + strconv.Itoa(len(inputs)) + " requests")
+	}
+
 	// return the results
 	return results, nil
 }
